@@ -1,13 +1,15 @@
 /* C15 (component level): small-immediate operands.  cfuns.c can_be_imm decides whether a constant operand of a
  * specialised core function (+ - * / < > = ... with a literal argument) may be encoded in the 8-bit immediate field of
  * the *_IMMEDIATE instructions.  The specialised form computes the same result only if the immediate IS the operand:
- *   can_be_imm returns 1  iff  the value is a number that equals an integer k with -128 <= k <= 127, and then *out == k;
+ *   can_be_imm returns 1  iff  the value IS the IEEE double of an integer k with -128 <= k <= 127 (negative zero is not: as
+ *   an immediate it would turn into +0 and (/ 1 -0.0), (* x -0.0), (+ -0.0 -0.0) change their result), and then *out == k;
  *   otherwise it returns 0 and leaves *out alone.
  * "iff" is stated with a ghost integer g_k in [-128,127] that is left unconstrained (DESIGN R2): if the value equals
  * g_k the function must accept and produce g_k; if it accepts, the produced byte must equal the value.
  * The real janet_checkint (util.c) is linked in; Janet values are the build's nan-boxed representation. */
 #include "prelude.h"
 
+#define NEGZERO(x) ((x).u64 == 0x8000000000000000ull)
 int32_t g_k;      /* ghost: any integer in the immediate range */
 int8_t g_out0;    /* ghost: *out at entry */
 
@@ -17,15 +19,16 @@ __CPROVER_requires(g_k >= -128 && g_k <= 127 && g_out0 == *out)
 __CPROVER_assigns(*out)
 __CPROVER_ensures(__CPROVER_return_value == 0 || __CPROVER_return_value == 1)
 /* accepted => it is a number and the immediate equals it (so it is an integer in [-128,127]) */
-__CPROVER_ensures(__CPROVER_return_value == 1 ==> (janet_checktype(x, JANET_NUMBER) && janet_unwrap_number(x) == (double)*out))
+__CPROVER_ensures(__CPROVER_return_value == 1 ==> (janet_checktype(x, JANET_NUMBER) && janet_unwrap_number(x) == (double)*out && !NEGZERO(x)))
 /* every number equal to an integer of the range is accepted, with that integer */
-__CPROVER_ensures((janet_checktype(x, JANET_NUMBER) && janet_unwrap_number(x) == (double)g_k) ==> (__CPROVER_return_value == 1 && *out == g_k))
+__CPROVER_ensures((janet_checktype(x, JANET_NUMBER) && janet_unwrap_number(x) == (double)g_k && !NEGZERO(x)) ==> (__CPROVER_return_value == 1 && *out == g_k))
 /* rejected => nothing written */
 __CPROVER_ensures(__CPROVER_return_value == 0 ==> *out == g_out0)
 ;
 
 void h_can_be_imm(void) {
   Janet x; int8_t *out;
+  x.u64 = nd_u64();      /* explicit: an uninitialised union is not read back consistently through its members (R-pitfall) */
   int r = can_be_imm(x, out);
   REACH("normal return of can_be_imm");
 }
@@ -36,13 +39,14 @@ __CPROVER_requires(__CPROVER_is_fresh(out, sizeof(*out)))
 __CPROVER_requires(g_k >= -128 && g_k <= 127 && g_out0 == *out)
 __CPROVER_assigns(*out)
 __CPROVER_ensures(__CPROVER_return_value == 0 || __CPROVER_return_value == 1)
-__CPROVER_ensures(__CPROVER_return_value == 1 ==> ((s.flags & JANET_SLOT_CONSTANT) != 0 && janet_checktype(s.constant, JANET_NUMBER) && janet_unwrap_number(s.constant) == (double)*out))
-__CPROVER_ensures(((s.flags & JANET_SLOT_CONSTANT) != 0 && janet_checktype(s.constant, JANET_NUMBER) && janet_unwrap_number(s.constant) == (double)g_k) ==> (__CPROVER_return_value == 1 && *out == g_k))
+__CPROVER_ensures(__CPROVER_return_value == 1 ==> ((s.flags & JANET_SLOT_CONSTANT) != 0 && janet_checktype(s.constant, JANET_NUMBER) && janet_unwrap_number(s.constant) == (double)*out && !NEGZERO(s.constant)))
+__CPROVER_ensures(((s.flags & JANET_SLOT_CONSTANT) != 0 && janet_checktype(s.constant, JANET_NUMBER) && janet_unwrap_number(s.constant) == (double)g_k && !NEGZERO(s.constant)) ==> (__CPROVER_return_value == 1 && *out == g_k))
 __CPROVER_ensures(__CPROVER_return_value == 0 ==> *out == g_out0)
 ;
 
 void h_can_slot_be_imm(void) {
   JanetSlot s; int8_t *out;
+  s.constant.u64 = nd_u64(); s.flags = nd_u32(); s.index = nd_i32(); s.envindex = nd_i32();
   int r = can_slot_be_imm(s, out);
   REACH("normal return of can_slot_be_imm");
 }
